@@ -8,11 +8,13 @@ import (
 	"math/rand/v2"
 	"os"
 	"runtime"
+	"strconv"
 	"strings"
 	"sync"
 	"time"
 
 	"testing"
+	"testing/synctest"
 
 	ds "github.com/ipfs/go-datastore"
 	logging "github.com/ipfs/go-log/v2"
@@ -68,7 +70,10 @@ type rnode struct {
 	genesis      *genesispkg.Genesis // nil: the world's genesis
 	signer       signer.Signer       // nil: the world's proposer key (aggregators only)
 	extraPeers   string              // further configured P2P peers
+	startedAt    time.Time
+	runGid       uint64 // the goroutine in which the incarnation's Run executes (it starts the P2P stores' writer loops)
 	lastIncluded uint64
+	started      bool // the incarnation completed its start-up (it is seen running 2 s after its start)
 	wantUp       bool // the operator wants this node running: a refused start is retried at the next timeline step
 }
 
@@ -207,6 +212,8 @@ func (rw *rworld) start(rn *rnode) {
 	}
 	rn.n = n
 	rn.up = true
+	rn.started = false
+	rn.startedAt = time.Now()
 	rn.starts++
 	for _, other := range rw.nodes {
 		if other != rn {
@@ -222,10 +229,13 @@ func (rw *rworld) start(rn *rnode) {
 	rn.cancel = cancel
 	rn.done = make(chan struct{})
 	sn.Fence.OnCrash(cancel)
+	gidCh := make(chan uint64, 1)
 	go func(done chan struct{}) {
 		defer close(done)
+		gidCh <- goid()
 		rn.err = n.Run(ctx)
 	}(rn.done)
+	rn.runGid = <-gidCh
 }
 
 // stop ends rn's incarnation: kill=false cancels its context (clean stop), kill=true first makes the
@@ -255,6 +265,17 @@ func (rw *rworld) stop(rn *rnode, kill bool, step int) bool {
 	if kill {
 		restoreDir(rn.sn.Root, files)
 	}
+	if !kill {
+		// a clean stop ends the writer loops of the two P2P stores this incarnation started (they are the node's
+		// activities, not the library's; a Run that gave up during start-up is not judged: the process exits)
+		synctest.Wait()
+		if left := storeWritersStartedBy(rn.runGid); left > 0 && rn.started {
+			rw.o.Fail("C13/activity-outlives-the-node", "C13/activity-outlives-the-node/"+rn.name, step,
+				fmt.Sprintf("timeline step %d: %s (start %d) was stopped cleanly and Run returned, but %d of the P2P store writer loops it started are still running (the stores were not stopped, what they held in memory was not written)", step, rn.name, rn.starts, left),
+				"when the node is asked to stop every activity returns")
+			return false
+		}
+	}
 	if !rw.checkIncluded(rn, step) {
 		return false
 	}
@@ -267,6 +288,32 @@ func (rw *rworld) stop(rn *rnode, kill bool, step int) bool {
 		}
 	}
 	return true
+}
+
+// goid returns the id of the calling goroutine.
+func goid() uint64 {
+	b := make([]byte, 64)
+	b = b[:runtime.Stack(b, false)]
+	f := bytes.Fields(b)
+	if len(f) < 2 {
+		return 0
+	}
+	g, _ := strconv.ParseUint(string(f[1]), 10, 64)
+	return g
+}
+
+// storeWritersStartedBy counts the go-header store writer loops that were started from goroutine gid and still run.
+func storeWritersStartedBy(gid uint64) int {
+	buf := make([]byte, 1<<23)
+	n := runtime.Stack(buf, true)
+	want := fmt.Sprintf("go-header/store.(*Store[...]).Start in goroutine %d\n", gid)
+	c := 0
+	for _, blk := range strings.Split(string(buf[:n])+"\n", "\n\n") {
+		if strings.Contains(blk, "go-header/store.(*Store[...]).flushLoop") && strings.Contains(blk+"\n", want) {
+			c++
+		}
+	}
+	return c
 }
 
 func (rn *rnode) closeHost() {
@@ -307,6 +354,7 @@ func (rw *rworld) reap(step int, what string) bool {
 		}
 		select {
 		case <-x.done:
+			x.started = false
 			x.up = false
 			x.closeHost() // Run returned (e.g. a refused start): the process is gone, and its connections with it
 			x.sn.Fence.Kill()
@@ -320,6 +368,9 @@ func (rw *rworld) reap(step int, what string) bool {
 			rw.o.Fail("C13/node-stopped-on-its-own", "C13/node-stopped-on-its-own/"+x.name, step, fmt.Sprintf("timeline step %d (%s): %s.Run returned without being asked to stop: %v", step, what, x.name, x.err), "a node keeps running until it is asked to stop")
 			return false
 		default:
+			if time.Since(x.startedAt) > 2*time.Second {
+				x.started = true
+			}
 		}
 	}
 	return true
@@ -530,9 +581,17 @@ func c13RestartBody(t *testing.T, s *sim.Scn, o *sim.Outcome) {
 	// cfg p2ponly=1 (and the sequencer node was never killed or cut, so its P2P stores hold the whole chain):
 	// during the final phase the full nodes cannot read the DA layer at all - everything has to reach them over P2P
 	p2pOnly := s.Cfg["p2ponly"] == 1 && o.Counters["timeline:seq-killed-or-cut"] == 0
+	connected := map[string]bool{}
 	if p2pOnly {
 		rw.w.DA.ReadOutage = true
 		o.Count("timeline:p2p-only-final-phase", 1)
+		for _, x := range fulls {
+			// a full node that has a live connection to the sequencer now (and keeps running) gets everything over P2P
+			if x.up && agg.up && x.mh != nil && len(x.mh.Network().ConnsToPeer(agg.pid)) > 0 {
+				connected[x.name] = true
+				o.Count("timeline:p2p-only-final-phase/connected-full-node", 1)
+			}
+		}
 	}
 	time.Sleep(final)
 	// what has reached the full nodes' P2P stores by now must be applied a little later
@@ -671,6 +730,9 @@ func c13RestartBody(t *testing.T, s *sim.Scn, o *sim.Outcome) {
 				"once both parts of every block up to h are on the DA layer the node eventually reports h, including after a restart")
 			return
 		}
+		// (over P2P alone convergence is not demanded: whether gossip reaches a node again after either side restarted
+		// is P2P availability, which is not among the properties - and on the mocknet a reconnecting peer with the same
+		// identity does not reliably get the other side's gossip stream back, which would make such a rule a false alarm)
 		if reached[f.name] < target && !p2pOnly {
 			o.Fail("C13/invariant-C02-violated", "C13/invariant-C02-violated/not-converged-after-faults-stop/"+f.name, -1,
 				fmt.Sprintf("%s (started %d times) is at height %d after a fault-free final phase of %v with all nodes up, all links healed and a healthy DA layer; the proposer was at %d when the phase began (and is at %d now)", f.name, f.starts, reached[f.name], final, target, ah),
